@@ -11,8 +11,8 @@ Every theorem quantifies over *all* histories (lists of calls of any length) unl
   (c) `algo_*`. After the `fix:` commits the extended weights of the fast loss follow its weights, so the fast loss
   behaves exactly like the generic one. For every mode `_set_weights_by_mode` handles, re-use now equals fresh use after any
   history (`*_reuse_refines_fresh`); a mode without a branch keeps the earlier weights (stated explicitly, with a
-  witness). Still **false on the tree**: the algorithm object keeps its first projection (D10) — `_partial` theorem and
-  proved negation witness;
+  witness). Still **false on the tree**: the algorithm object keeps its first projection (D10) — exact characterisation
+  `algo_reuse_eq_fresh_iff` and a proved negation witness;
 * "global tolerance changes that are restored" → (d) `atol_*`
 * "no operation changes … its operands" → (e) `projEq_arg_unchanged` (the routine that used to write through views of
   its argument, repaired); the rest of that clause is observed on the implementation by snapshots.
@@ -180,24 +180,26 @@ theorem algo_proj_is_first {QT : Type} (c : QT × AlgoOpt) (h : List (QT × Algo
   show (arun (setConstraint Algo.fresh c) h).funcProj = _
   exact arun_proj_some h _ _ (by simp [setConstraint, Algo.fresh])
 
-/-- C13.c `algo_reuse_refines_fresh_partial`: re-use equals fresh use when every earlier call asked for the same
-projection (same tomography object, same constraint flags, order and iteration bound). Missing (and false, see
-`algo_reuse_refines_fresh_fails`): histories in which the requested projection changes. -/
-theorem algo_reuse_refines_fresh_partial {QT : Type} (h : List (QT × AlgoOpt)) (c : QT × AlgoOpt)
-    (hc : ∀ d ∈ h, projOf d.1 d.2 = projOf c.1 c.2) :
-    setConstraint (arun Algo.fresh h) c = setConstraint Algo.fresh c := by
-  cases h with
-  | nil => rfl
-  | cons d h =>
-      have hp := algo_proj_is_first d h
-      have hq : (setConstraint (arun Algo.fresh (d :: h)) c).qt = some c.1 := setConstraint_qt _ _
-      have hf := setConstraint_proj_some (arun Algo.fresh (d :: h)) c _ hp
-      rw [hc d (by simp)] at hf
-      have : setConstraint (Algo.fresh : Algo QT) c = ⟨some c.1, some (projOf c.1 c.2)⟩ := by
-        simp [setConstraint, Algo.fresh]
-      rw [this]
-      cases hx : setConstraint (arun Algo.fresh (d :: h)) c with
-      | mk q f => simp [hx] at hq hf; simp [hq, hf]
+/-- C13.c `algo_reuse_eq_fresh_iff` (full characterisation, replaces the partial statement): after a non-empty history
+re-use equals fresh use **exactly when** the first call of the history asked for the projection the current call asks
+for — whatever happened in between. -/
+theorem algo_reuse_eq_fresh_iff {QT : Type} (d : QT × AlgoOpt) (h : List (QT × AlgoOpt)) (c : QT × AlgoOpt) :
+    setConstraint (arun Algo.fresh (d :: h)) c = setConstraint Algo.fresh c ↔ projOf d.1 d.2 = projOf c.1 c.2 := by
+  have hp := algo_proj_is_first d h
+  have hf := setConstraint_proj_some (arun Algo.fresh (d :: h)) c _ hp
+  have hq : (setConstraint (arun Algo.fresh (d :: h)) c).qt = some c.1 := setConstraint_qt _ _
+  have hfresh : setConstraint (Algo.fresh : Algo QT) c = ⟨some c.1, some (projOf c.1 c.2)⟩ := by
+    simp [setConstraint, Algo.fresh]
+  rw [hfresh]
+  cases hx : setConstraint (arun Algo.fresh (d :: h)) c with
+  | mk q f =>
+      simp only [hx] at hq hf
+      subst hq; subst hf
+      simp
+
+example : setConstraint (arun Algo.fresh [((0 : Nat), (⟨true, true, false, some 20⟩ : AlgoOpt)), (1, ⟨false, false, true, none⟩)])
+    (2, ⟨true, true, false, some 20⟩) ≠ setConstraint Algo.fresh (2, ⟨true, true, false, some 20⟩) := by
+  rw [Ne, algo_reuse_eq_fresh_iff]; decide
 
 /-- C13.c negation witness (concrete): first dataset with both constraints on, second with both off — the re-used
 object still projects onto the physical set, a fresh one would not project at all. -/
@@ -321,6 +323,13 @@ theorem gen_no_memo_decorators : objDecorators.all (fun e => e.2.2 == "abstractp
 /-- C13.g: in-place operations on containers held by an object occur only in constructors / their helpers and in the cache
 builders that fill the dictionary they have just created. -/
 theorem gen_inplace_declared : objInplace.all (fun e => declaredInplace.contains (e.1, e.2.1)) = true := by decide
+
+/-- C13.g `gen_param_writes_declared`: no function of quara/{objects, utils, math, loss_function,
+minimization_algorithm, protocol, qcircuit} writes into an array or container it received as a parameter (subscript /
+augmented assignment, in-place ndarray methods, `out=`; aliases through assignment, views and loop variables followed),
+apart from three functions that re-bind the name to a copy before writing. -/
+theorem gen_param_writes_declared :
+    paramWrites.all (fun e => declaredParamWriters.contains (e.1, e.2.1)) = true := by decide
 
 /-- C13.g `gen_cache_follows_source`: for the fast losses, every method (own or inherited, resolved along the generated
 base-class table, self-calls and `super()` calls followed) that binds a source attribute also binds the cache derived
